@@ -11,7 +11,7 @@ for p in props:
     keys = [k for f in findings if f["property"] == p and f["status"] == "open" for k in f.get("native_keys", [])]
     for sd in seeds:
         out = tempfile.mktemp(suffix=".json")
-        subprocess.run(["/venv/bin/python", "-m", "native.run", p, "--tier", "quick", "--seed", str(sd), "--out", out], cwd="/verif", capture_output=True)
+        subprocess.run(["/venv/bin/python", "-m", "native.run", p, "--tier", os.environ.get("SWEEP_TIER", "quick"), "--seed", str(sd), "--out", out], cwd="/verif", capture_output=True)
         r = json.load(open(out)); os.remove(out)
         fails = [f for f in r["failures"] if not any(f["key"].startswith(k) for k in keys)]
         if fails or r.get("error"):
